@@ -66,7 +66,7 @@ def tree_case(draw):
         for _ in range(nreq):
             g = draw(st.integers(0, len(obs) - 1))
             req.append([g, draw(st.integers(1, obs[g]['nf']))])
-    return dict(obs=obs, conv=conv, req=req, staged=draw(st.booleans()), run1d_empty=draw(st.sampled_from([False, False, True])) and conv != 'mjd-omitted', config=draw(st.sampled_from(['env', 'env', 'path', 'path-keywords', 'env-run2d-keyword'])), photo=draw(st.booleans()),
+    return dict(obs=obs, conv=conv, req=req, staged=draw(st.booleans()), run1d_empty=draw(st.sampled_from([False, False, True])) and conv != 'mjd-omitted', config=draw(st.sampled_from(['env', 'env', 'path', 'path-keywords', 'env-run2d-keyword'])), photo=draw(st.booleans()), photo_layout=draw(st.sampled_from(['beside', 'match', 'beside'])),
                 run2d=draw(st.sampled_from([RUN2D, RUN2D, 'trunk', '26', 'DR12x', 'master'])), plug_fiberid=draw(st.sampled_from(['rows', 'rows', 'unplugged', 'reversed'])))
 
 
@@ -116,7 +116,12 @@ def write_tree(top, case):
             t = np.zeros(nf, dtype=[('FIBERID', 'i4'), ('OBJC', 'f8')])
             t['FIBERID'] = np.arange(nf) + 1
             t['OBJC'] = val(plate, mjd, 8, np.arange(nf) + 1, 0)
-            fits.HDUList([fits.PrimaryHDU(), fits.BinTableHDU(t)]).writeto(os.path.join(d, 'photoPlate-%04d-%05d.fits' % (plate, mjd)))
+            pd_ = d
+            if case.get('photo_layout') == 'match':
+                # round 11: the SDSS-I/II place of the photoPlate files, $SPECTRO_MATCH/<run2d>/<basename of $PHOTO_RESOLVE>/<PPPP>/
+                pd_ = os.path.join(top, 'match', r2, 'resolve', '%04d' % plate)
+                os.makedirs(pd_, exist_ok=True)
+            fits.HDUList([fits.PrimaryHDU(), fits.BinTableHDU(t)]).writeto(os.path.join(pd_, 'photoPlate-%04d-%05d.fits' % (plate, mjd)))
 
 
 def tree_body(case):
@@ -255,7 +260,7 @@ def tree_body(case):
 
 
 def tree_classify(case):
-    return ['run2d:' + case.get('run2d', RUN2D), 'conv:' + case['conv'], 'config:' + case['config'], 'groups:%d' % min(len(case['obs']), 4), 'photo' if case['photo'] else 'nophoto', 'nreq:%d' % min(len(case['req']) // 4 * 4, 12)]
+    return ['run2d:' + case.get('run2d', RUN2D), 'conv:' + case['conv'], 'config:' + case['config'], 'groups:%d' % min(len(case['obs']), 4), ('photo:' + case.get('photo_layout', 'beside')) if case['photo'] else 'nophoto', 'nreq:%d' % min(len(case['req']) // 4 * 4, 12)]
 
 
 def tree_nontrivial(case, labels):
